@@ -35,6 +35,8 @@ def compare_models(sample_objs, model_priors=None):
         discrepancies = np.concatenate([s.discrepancies for s in sample_objs])
     except ValueError:
         raise ValueError("All Sample objects must include valid discrepancies.")
+    # As in Rejection: discrepancies may be column-shaped or nested, use the last distance
+    discrepancies = np.atleast_2d(np.transpose(discrepancies))[-1]
 
     # sort and take the smallest n_min
     inds = np.argsort(discrepancies)[:n_min]
